@@ -22,7 +22,10 @@ EXPLANATION = (
     "is range(r_start, r_start + max_repeats), and a future is reported with the "
     "setting it was submitted with; (FAIL) a failing trial is turned into a complete "
     "inf-valued record. Together: best = arg-min over the recorded scores, "
-    "independent of completion order. Cost equality itself is not decided."
+    "independent of completion order. Cost equality itself is not decided. "
+    "Later rounds added: "
+    "(SHAREDFN) trial-function wrappers and objectives keep no per-trial state they read "
+    "back. "
 )
 ASSUMPTIONS = (
     "single dict/list operations are atomic; trial functions run on workers and "
